@@ -6216,8 +6216,11 @@ static int32 writeClientKeyExchange(ssl_t *ssl, sslBuf_t *out)
          Retransmit case.  Must use the cached encrypted msg from
          the first flight to keep handshake hash same
  */
-        Memcpy(c, ssl->ckeMsg, ssl->ckeSize);
-        c += ssl->ckeSize;
+        if (ssl->ckeSize > 0 && ssl->ckeMsg != NULL)
+        {
+            Memcpy(c, ssl->ckeMsg, ssl->ckeSize);
+            c += ssl->ckeSize;
+        }
     }
     else
     {
